@@ -266,6 +266,49 @@ def splitlines_bytes(pieces):
     return lines
 
 
+def split_ws_once(pieces, ws):
+    """s.split(None, 1) on the structure: [] | [field] | [field, rest]; UNKNOWN when a symbolic piece might contain
+    white space where it matters (the rest after the first white-space run is taken as it is, whatever it contains)"""
+    state = 0          # 0: leading white space, 1: inside the first field, 2: white space after the field
+    field = []
+    for i, pc in enumerate(pieces):
+        if pc.const is None:
+            if state == 0:
+                if never_empty(pc.regex) is True and avoids_chars(pc.regex, ws) is True:
+                    field.append(pc)
+                    state = 1
+                    continue
+                return UNKNOWN
+            if state == 1:
+                if avoids_chars(pc.regex, ws) is True:
+                    field.append(pc)
+                    continue
+                return UNKNOWN
+            from . import sym
+            if never_empty(pc.regex) is True and never_starts_in(pc.regex, sym.re_chars(ws)) is True:
+                return [field, pieces[i:]]
+            return UNKNOWN
+        start = 0
+        for j, ch in enumerate(pc.const):
+            if state == 0:
+                if ch not in ws:
+                    state = 1
+                    start = j
+            elif state == 1:
+                if ch in ws:
+                    if j > start:
+                        field.append(Piece(const=pc.const[start:j]))
+                    state = 2
+            else:
+                if ch not in ws:
+                    return [field, [Piece(const=pc.const[j:])] + pieces[i + 1:]]
+        if state == 1 and len(pc.const) > start:
+            field.append(Piece(const=pc.const[start:]))
+    if state == 0:
+        return []
+    return [field]
+
+
 # ----------------------------------------------------------------------------- regex matching on the structure
 
 class Cursor:
